@@ -273,7 +273,10 @@ func sampleValue(r *core.Rng, t *yang.RType) (good string, bad string) {
 	}
 	cands := []string{"1", "5", "0", "7", "10", "100", "2.5", "abc", "ab", "a", "x", "true", "false", "e0", "e1", "-1", "50", "20", "9", "3", "abcdefgh", "",
 		// other spellings of numbers: decimal with sign or leading zeros is YANG, a base prefix or an underscore is not
-		"007", "08", "+5", "0100", "0x7", "0b11", "0o17", "1_0", "1e1"}
+		"007", "08", "+5", "0100", "0x7", "0b11", "0o17", "1_0", "1e1",
+		// characters that are legal in a YANG string though a program may think otherwise (DEL, C1 controls, the
+		// replacement character, letters of several bytes), and two that are not
+		"a\u007fb", "k\u0085", "\u009f", "é日", "caf\ufffd", "a\x01b", "\ufffe"}
 	var goods, bads []string
 	for _, c := range cands {
 		if t.Accepts(c) {
